@@ -240,6 +240,10 @@ def run(db, rep):
                     if gb:
                         bad = "`%s` is read when %s but written only when %s: %s" % (nmw, gb[0], gb[1], gb[2])
                         break
+                    fl = flag_link(db, fs[0], r, wv)
+                    if fl:
+                        bad = fl
+                        break
         # coverage by name: whatever the constructor chain reads into a named member the serialiser writes from a member of
         # that name at least as often, and the other way round (tabled exceptions: members filled by other means)
         if not bad:
@@ -310,6 +314,37 @@ WRITE_ONLY_OK = {
     ("RadioTap", "options_payload_"): "assigned from the cursor's pointer range",
     ("RawPDU", "payload_"): "assigned from the buffer range",
 }
+
+
+def flag_link(db, ctor, r, w):
+    """the serialiser writes the member under a boolean FLAG member (`use_mldv2_`) and the constructor reads it under a test
+    of the input: the flag must be assigned from that very test - else there are inputs for which the member is read (and
+    counted by the getters) but not written back"""
+    gr = list(r[8]) if len(r) > 8 else []
+    gw = list(w[8]) if len(w) > 8 else []
+    # guards both sides share (the message-type tests around the whole branch) say nothing about the flag
+    common = set((c.key, p) for c, p in gr) & set((c.key, p) for c, p in gw)
+    gr = [(c, p) for c, p in gr if (c.key, p) not in common]
+    gw = [(c, p) for c, p in gw if (c.key, p) not in common]
+    if len(gr) != 1 or len(gw) != 1 or not gw[0][1] or not gr[0][1]:
+        return None
+    wn = facts.strip_all(gw[0][0].node)
+    if wn["k"] != "MemberExpr" or not wn.get("isfield") or (facts.ty(gw[0][0].ctx.f, wn) or {}).get("k") != "bool":
+        return None
+    flag = wn["member"]
+    rtxt = facts.expr_str(facts.strip_all(gr[0][0].node)).replace("this->", "")
+    fr = gr[0][0].ctx.f
+    sets = [x for x in facts.fn_nodes(fr) if x["k"] == "BinaryOperator" and x.get("op") == "=" and
+            facts.strip_all(x["c"][0]).get("member") == flag]
+    if len(sets) != 1:
+        return None
+    e = facts.inline_locals(fr, sets[0]["c"][1], kinds=("bool",))
+    etxt = facts.expr_str(facts.strip_all(e)).replace("this->", "")
+    if etxt == rtxt or facts.cval(e) is not None:
+        return None
+    return ("`%s` is read when `%s` but the flag `%s`, under which write_serialization writes it, is set from `%s` (line %s): for an input "
+            "on which the two differ the member is parsed and then left out of the serialization"
+            % (member_name(r[2]), rtxt[:50], flag, etxt[:60], sets[0].get("l")))
 
 
 def guard_form(guards):
